@@ -11,7 +11,7 @@ THEOREMS = ['C18_pointer_is_as_of_version', 'C18_current_transaction_is_maximal'
 RULE = ('histories over the blog shape with ActivityPlugin: entities are created / updated / deleted, their changes flushed, then '
         'activities about them (object and optionally target) are added and flushed in the same or a later transaction; the '
         'activity objects stay referenced by the application while the entity is later updated, deleted or left alone, and while '
-        'transactions that touch only non-versioned classes or nothing are committed. After every flush / commit the activity table '
+        'transactions that touch only non-versioned classes or nothing are committed, and while the application edits an attribute (verb) of an activity it holds. After every flush / commit the activity table '
         'is read: first flush = current transaction id and pointers = newest version at or before it; committed activities '
         'never change; no transaction record without a versioned change. Non-trivial: an activity that survives >= 2 later '
         'transactions one of which changes its object.')
@@ -41,8 +41,11 @@ def gen_prog(rng):
             c, k = rng.choice(sorted(alive))
             prog.append(['del', c, k])
             alive.discard((c, k))
-        elif r < 0.65:
+        elif r < 0.62:
             prog.append(['add', 3, rng.choice([1, 2]), {'a': rng.choice([0, 1])}])     # non-versioned only
+        elif r < 0.68:
+            # the application edits an attribute of an activity it still holds (possibly of an earlier transaction)
+            prog.append(['actset', rng.randint(0, 5), 'w%d' % rng.randint(0, 3)])
         elif r < 0.75:
             prog.append(['flush'])
         else:
@@ -60,7 +63,10 @@ def gen_cases(rng, n, tier):
 
 def corpus():
     cfg = dict(shape='blog', strategy='validity', activity=True, twin=False)
-    return [dict(cfg=cfg, prog=[['add', 0, 1, {'a': 1}], ['flush'], ['activity', 'create', [0, 1], None], ['commit'],
+    return [dict(cfg=cfg, prog=[['add', 0, 1, {'a': 1}], ['commit'], ['set', 0, 1, {'a': 2}], ['flush'],
+                                ['activity', 'v', [0, 1], None], ['commit'], ['set', 0, 1, {'a': 0}], ['flush'],
+                                ['actset', 0, 'w'], ['set', 0, 1, {'a': 1}], ['commit'], ['del', 0, 1], ['commit']]),
+            dict(cfg=cfg, prog=[['add', 0, 1, {'a': 1}], ['flush'], ['activity', 'create', [0, 1], None], ['commit'],
                                 ['set', 0, 1, {'a': 2}], ['commit'], ['add', 3, 1, {'a': 0}], ['commit']])]
 
 
